@@ -75,7 +75,7 @@ def _build(glyphs, overrides):
 def _name(glyph):
     from nanoemoji.glyph import glyph_name
 
-    return glyph_name(glyph.codepoints)
+    return getattr(glyph, "name", None) or glyph_name(glyph.codepoints)
 
 
 def _picture_mismatches(glyphs, result, evaluator_factory, n=11, otsvg=False):
@@ -327,9 +327,11 @@ def _add_same_gradient_in_other_documents(rng, glyphs):
 
 def _gen_otsvg(rng, i=None):
     # cases 0..5 of every 8 hold one fixed scenario each (on a picosvg build); the rest is random
-    forced = {0: "donor-same", 1: "donor-cross", 2: "grad-docs", 3: "sibling", 4: "prefix"}.get(i % 8) if i is not None else None
+    forced = {0: "donor-same", 1: "donor-cross", 2: "grad-docs", 3: "sibling", 4: "prefix", 5: "notdef-source"}.get(i % 8) if i is not None else None
     fmt = rng.choice(["picosvg", "picosvg", "picosvgz", "untouchedsvg", "untouchedsvgz"])
-    if forced:
+    if forced == "notdef-source":
+        fmt = rng.choice(["untouchedsvg", "picosvg", "untouchedsvgz"])
+    elif forced:
         fmt = rng.choice(["picosvg", "picosvg", "picosvgz"])
     over_ = _cfg_variants(rng, fmt)
     if not forced and rng.random() < 0.2:
@@ -343,6 +345,12 @@ def _gen_otsvg(rng, i=None):
         _add_default_paint_donor(rng, glyphs)
     if forced == "grad-docs" or rng.random() < 0.15:
         _add_same_gradient_in_other_documents(rng, glyphs)
+    if forced == "notdef-source":
+        # artwork for .notdef (a source mapped to the glyph name .notdef by the glyph map),
+        # not the first input
+        nd = e2e.GlyphSpec(glyphs[0].viewbox, [e2e.Shape(e2e._poly(rng, glyphs[0].viewbox), e2e.Solid(e2e._rgb(rng)), 1.0)], ())
+        nd.name = ".notdef"
+        glyphs.insert(rng.randint(1, len(glyphs)), nd)
     if forced == "prefix" or rng.random() < 0.3:
         # glyph names that are prefixes of one another (a sequence and its leading
         # codepoint), in either input order
